@@ -197,6 +197,15 @@ def replay(harness, config, case):
     return execute(config, case)
 
 
+def _names_shard(cases):
+    out = []
+    for text, cont, scr in cases:
+        j = judge(text, cont, scr, as_bytes=False)
+        out.append(None if j is None else engine.Violation(H, {"kind": "word", "theme": "NAMES", "container": cont, "scripting": scr}, text,
+                                                           "a tree with the document skeleton", j[0], j[0], "names:" + j[1]))
+    return out
+
+
 # ---- (b) byte soup -----------------------------------------------------------------------------------
 
 SOUP = [0x00, 0x0D, 0x0A, 0x3C, 0x61, 0x3E, 0x26, 0x23, 0x2F, 0x21, 0x2D, 0x80, 0xC3, 0xA9, 0xEF, 0xBB, 0xBF, 0xFE, 0xFF]
@@ -221,6 +230,28 @@ def _soup_shard(args):
                 res["evals"] += 1
                 j = judge_soup(data, kw)
                 if j is not None and j[1] not in res["viol"]:
+                    res["viol"][j[1]] = (data, kw, j)
+    return res
+
+
+# ---- (b2) declaration soup: byte words over encoding-declaration fragments (prescan, late <meta>, BOMs, labels with
+#      non-ASCII or NUL bytes), with the *_encoding arguments that keep the encoding tentative or make it certain
+
+META_SOUP = [b"<meta charset=", b"<meta http-equiv=content-type content='text/html; charset=", b"\xff", b"\xc3\xa9", b"utf-8", b"utf-16",
+             b"'", b">", b"x", b"<!--" + b"x" * 1100 + b"-->", b"\x00", b"\xef\xbb\xbf", b" ", b"<p>", b"\xfe\xff", b";"]
+META_KW = [{}, {"likely_encoding": "utf-8"}, {"transport_encoding": "utf-8"}, {"default_encoding": "koi8-r"}]
+
+
+def _metasoup_shard(args):
+    first, L = args
+    res = {"evals": 0, "viol": {}}
+    for n in range(0, L):
+        for rest in itertools.product(META_SOUP, repeat=n):
+            data = first + b"".join(rest)
+            for kw in META_KW:
+                res["evals"] += 1
+                j = judge_soup(data, kw)
+                if j is not None and (j[1] not in res["viol"] or len(data) < len(res["viol"][j[1]][0])):
                     res["viol"][j[1]] = (data, kw, j)
     return res
 
@@ -288,6 +319,23 @@ def run(run):
         run.set("traces_validated_against_impl", tot_t)
         run.set("parses_in_word_part", tot_t * 7)
         run.set("distinct_observations", len(obs))
+    # (a2) every element name of the standard's tables: in structural templates, and as the fragment container
+    if "word" in only:
+        cases = tw.name_cases()
+        texts = ["", "x", "<p>x", "</%s>y", "<%s>x", "<td>x</td>", "<option>x", "<frame>", "<!--c-->", "&amp;", "<svg><g>x", "<tr>", "</p>", "\x00"]
+        for name in tw.ALL_NAMES + ["template", "HTML", "x-y", "svg:a"]:
+            for t in texts:
+                for scr in (False, True):
+                    cases.append((t.replace("%s", name), name, scr))
+        n = 0
+        for vs in engine.pmap(_names_shard, [cases[i:i + 300] for i in range(0, len(cases), 300)], chunksize=1):
+            for v in vs:
+                n += 1
+                if v is not None and (v.diff_class not in classes or len(v.case) < len(classes[v.diff_class].case)):
+                    classes[v.diff_class] = v
+        run.set("name_sweep_cases", n)
+        run.add("transitions", n)
+        run.add("traces_validated_against_impl", n)
     # (b)
     if "soup" in only:
         L = 4 if quick else 5
@@ -298,6 +346,14 @@ def run(run):
                 if cls not in classes:
                     classes[cls] = engine.Violation(H, {"kind": "soup", "kw": kw}, data, "a tree", j[0], j[0], cls)
         run.sample({"soup": bytes(SOUP[:4]).hex()})
+    if "soup" in only:
+        L = 4 if quick else 5
+        for r in engine.pmap(_metasoup_shard, [(a, L) for a in META_SOUP], chunksize=1):
+            run.add("declaration_soup_parses", r["evals"] * 2)
+            for cls, (data, kw, j) in r["viol"].items():
+                cls = "meta" + cls
+                if cls not in classes or len(data) < len(classes[cls].case):
+                    classes[cls] = engine.Violation(H, {"kind": "soup", "kw": kw}, data, "a tree", j[0], j[0], cls)
     # (c)
     if "pump" in only:
         n = 1100 if quick else 5000
